@@ -286,6 +286,9 @@ def rand_val(rng, text_p=0.35):
         return Val.text_(s)
     if r < text_p + 0.2:
         i = rng.choice([rng.randrange(-50, 500), rng.randrange(-10 ** 6, 10 ** 9), 0, 1])
+        if rng.random() < 0.12:
+            # identifiers / serial numbers: integers that no double holds exactly
+            i = rng.choice([2 ** 53 + 1, -(2 ** 55) - 1, 10 ** 18 + 7, rng.randrange(10 ** 16, 10 ** 20) | 1, -(rng.randrange(10 ** 16, 10 ** 22) | 1)])
         v = Val.int_(i)
         if i >= 0 and rng.random() < 0.12 and hasattr(v, 'text'):
             v.text = '+' + v.text               # an explicit plus sign is still an integer
